@@ -1,6 +1,6 @@
 (* C09 — Runner removal voids bets on the runner and reduces the others once.  Statements only. *)
 From Coq Require Import ZArith List Bool.
-From V Require Import Model.Num Model.Status Model.Sim Model.SimLoop Model.Examples Proofs.SimBucketsP.
+From V Require Import Model.Num Model.Status Model.Sim Model.SimLoop Model.Examples Proofs.SimBucketsP Proofs.SimRemovalsP.
 Open Scope Z_scope.
 
 (* 1. void, whatever state the order is in: nothing matched, no fragments, voided = size; what remains is
@@ -67,4 +67,56 @@ Example C09_once_per_market_example :
   let '(s1, m1) := middleware tb_up std_cfg c09_state c09_market1 c09_book in
   map so_voided (mk_orders m1) = [500] /\ s_removals s1 = [(0, (1, Some 1000)); (1, (1, Some 1000))] /\
   (let '(s2, m2) := middleware tb_up std_cfg s1 m1 c09_book in s_removals s2 = s_removals s1 /\ map so_voided (mk_orders m2) = [500]).
+Proof. vm_compute. repeat split; reflexivity. Qed.
+
+(* 4. "exactly once per market" for every history of a run.  (a) no event of the run — requests, package executions, books of
+      any market and status, a CLOSED update, a re-opening — forgets a recorded removal; (b) after the middleware has processed a
+      book, every REMOVED runner of it is recorded for that market; (c) a book whose removals are all recorded applies none: the
+      orders only go through this update's matching; (d) the three together, over an arbitrary list of events in between. *)
+Theorem C09_run_keeps_removals : forall tb cf n sc es s k,
+  In k (s_removals s) -> In k (s_removals (fold_left (step tb cf n sc) es s)).
+Proof. exact run_keeps_removals. Qed.
+Print Assumptions C09_run_keeps_removals.
+
+Theorem C09_processed_removal_is_recorded : forall tb cf s m b r,
+  In r (b_runners b) -> r_status r = RRemoved ->
+  recorded (mk_id m) (r_sel r, r_adj r) (s_removals (fst (middleware tb cf s m b))) = true.
+Proof. exact middleware_records_removed. Qed.
+Print Assumptions C09_processed_removal_is_recorded.
+
+Theorem C09_recorded_removal_not_applied_again : forall tb cf s m b,
+  (forall r, In r (b_runners b) -> r_status r = RRemoved -> recorded (mk_id m) (r_sel r, r_adj r) (s_removals s) = true) ->
+  exists ans, s_removals (fst (middleware tb cf s m b)) = s_removals s /\
+              mk_orders (snd (middleware tb cf s m b)) = (if mk_active m then process_sim_orders tb cf b ans (mk_orders m) else mk_orders m).
+Proof. exact recorded_removal_not_applied_again. Qed.
+Print Assumptions C09_recorded_removal_not_applied_again.
+
+Theorem C09_once_over_history : forall tb cf n sc s m b es m' b',
+  mk_id m' = mk_id m ->
+  (forall r', In r' (b_runners b') -> r_status r' = RRemoved ->
+     exists r, In r (b_runners b) /\ r_status r = RRemoved /\ r_sel r = r_sel r' /\ r_adj r = r_adj r') ->
+  let s_after := fold_left (step tb cf n sc) es (fst (middleware tb cf s m b)) in
+  exists ans, s_removals (fst (middleware tb cf s_after m' b')) = s_removals s_after /\
+              mk_orders (snd (middleware tb cf s_after m' b')) =
+              (if mk_active m' then process_sim_orders tb cf b' ans (mk_orders m') else mk_orders m').
+Proof. exact removal_once_over_history. Qed.
+Print Assumptions C09_once_over_history.
+
+(* non-vacuity: a run in which market 1 sees the removal, is CLOSED, and is OPEN again with the runner still removed: the fill
+   reduced to 16000 at the removal stays at 16000 after the re-opening (a second application would give 12800) *)
+Definition c09_closed := xbook 20 MClosed 3 [xrunner 1 RRemoved (Some 2000) [] [] []; xrunner 2 RActive None [] [] []].
+Definition c09_removed := xbook 10 MOpen 2 [xrunner 1 RRemoved (Some 2000) [] [] []; xrunner 2 RActive None [] [] []].
+Definition c09_reopened := xbook 30 MOpen 4 [xrunner 1 RRemoved (Some 2000) [] [] []; xrunner 2 RActive None [] [] []].
+Definition c09_market2 : market :=
+  {| mk_id := 1; mk_static := std_static; mk_book := None; mk_closed := false; mk_seen := true; mk_analytics := [];
+     mk_orders := [xorder 7 2 Back 20000 500 SExecutable 500 20000 0 0 0 [{| f_pt := 1; f_price := 20000; f_size := 500 |}]]; mk_active := true |}.
+Definition c09_run_state : sim :=
+  {| s_markets := [c09_market2]; s_queue := []; s_bet := 0; s_removals := []; s_next_name := 1000; s_aborted := false; s_tx := 0; s_tx_failed := 0 |}.
+Definition c09_prices (s : sim) := map (fun m => map (fun o => map f_price (so_frags o)) (mk_orders m)) (s_markets s).
+Example C09_once_over_close_and_reopen_example :
+  let ev i b := {| ev_market := 1; ev_idx := i; ev_book := b |} in
+  let run es := fold_left (step tb_up std_cfg 1 (fun _ _ _ => [])) es c09_run_state in
+  c09_prices (run [ev 0 c09_removed]) = [[[16000]]] /\
+  c09_prices (run [ev 0 c09_removed; ev 1 c09_closed; ev 2 c09_reopened]) = [[[16000]]] /\
+  s_removals (run [ev 0 c09_removed; ev 1 c09_closed; ev 2 c09_reopened]) = [(1, (1, Some 2000))].
 Proof. vm_compute. repeat split; reflexivity. Qed.
